@@ -167,6 +167,7 @@ type Exec struct {
 	racySites map[string]bool
 	racyPC    map[uintptr]bool
 	racyFound map[string]bool // library sites seen in a race during this execution
+	raceAll   bool            // harness sites are eligible as racy sites too (litmus suite)
 	freezeOn   bool // offer the freeze deviation at scheduling points
 	nfrozen    int
 	frozeAt    int // step of the oldest outstanding freeze
